@@ -35,7 +35,8 @@ pub fn programs(tier: Tier) -> ProgramSet {
         Tier::Quick => 3usize,
         Tier::Thorough => 5usize,
     };
-    let ident_sets: Vec<Vec<&str>> = vec![BASE_IDENTS.to_vec(), vec!["Hello2You", "HTTPServer", "A1", "X_y", "Utf8To16"]];
+    // declaration order is deliberately NOT alphabetical (neither by identifier nor by generated field name)
+    let ident_sets: Vec<Vec<&str>> = vec![vec!["Mm", "Kk", "I_j", "G2h", "DEf"], vec!["V1", "HTTPServer", "V_1", "A1", "Utf8To16"]];
     let mut out = Vec::new();
     let mut add = |label: String, spec: EnumSpec, out: &mut Vec<Program>| {
         let source = render(&spec);
@@ -43,7 +44,7 @@ pub fn programs(tier: Tier) -> ProgramSet {
     };
     for n in 1..=nmax {
         for (isi, ids) in ident_sets.iter().enumerate() {
-            if isi == 1 && tier == Tier::Quick && n != 2 {
+            if isi == 1 && tier == Tier::Quick && n != 3 {
                 continue;
             }
             for dmask in 0u32..8 {
